@@ -387,7 +387,7 @@ func execC05(c c05Case) Outcome {
 		return fail("forwarded login PID %d, want %d (token %q)", g.l.PID, wantPID, pid)
 	}
 	wantCred := "unknown"
-	if c.M.KeyID != "" {
+	if c.M.HasCert {
 		wantCred = c.M.KeyID
 	}
 	if g.l.CredUserID != wantCred {
@@ -1223,4 +1223,117 @@ func TestC07_SlowConsumer(t *testing.T) {
 			}
 		}
 	}, execC07Slow)
+}
+
+
+// C06 over histories: sshd legitimately prints identical lines (one "Failed
+// password" per wrong password of a connection); every one of them yields its event.
+type c06SeqCase struct {
+	Msgs []sshdMsg `json:"msgs"`
+}
+
+func execC06Seq(c c06SeqCase) Outcome {
+	rig := newSshdRig(64)
+	framed := len(c.Msgs)%2 == 0
+	repeats := 0
+	for i, m := range c.Msgs {
+		before := rig.rec.Len()
+		if err := deliver(rig, m.PID, m.Msg, framed); err != nil {
+			return fail("message %d returned error %v", i, err)
+		}
+		evs := rig.rec.Events()[before:]
+		if len(evs) != 1 {
+			return fail("message %d of the history (form %s, pid %s) produced %d events, want exactly 1; line %q; earlier lines of the same processor: %d", i, m.Form, m.PID, len(evs), m.Msg, i)
+		}
+		if err := checkWant(evs[0].Ev, m.Want, m.Msg, m.PID); err != nil {
+			return fail("message %d of the history (form %s): %v", i, m.Form, err)
+		}
+		if i > 0 && c.Msgs[i-1].Msg == m.Msg && c.Msgs[i-1].PID == m.PID {
+			repeats++
+		}
+	}
+	rig.drain()
+	return Outcome{NT: repeats > 0, Labels: []string{fmt.Sprintf("identical_consecutive_lines:%d", imin(repeats, 3))}}
+}
+
+func TestC06_History(t *testing.T) {
+	RunProp(t, "c06.history", func(rt *rapid.T) c06SeqCase {
+		n := rapid.IntRange(2, 8).Draw(rt, "n")
+		c := c06SeqCase{}
+		for len(c.Msgs) < n {
+			m := genSshdMsg(rt)
+			if rapid.IntRange(0, 2).Draw(rt, "samepid") > 0 {
+				m.PID = pick(rt, "hpid", []string{"4242", "4243"})
+				m.Want["pid"] = m.PID
+			}
+			c.Msgs = append(c.Msgs, m)
+			// the same line again (same connection, same pid), possibly several times
+			for rapid.IntRange(0, 2).Draw(rt, "again") == 1 && len(c.Msgs) < n {
+				c.Msgs = append(c.Msgs, m)
+			}
+		}
+		return c
+	}, execC06Seq)
+}
+
+// C10 over histories: accepted logins through ONE processor, PIDs recur (sshd
+// children reuse PIDs); each login's UserLogin is written before its hand-off.
+type c10SeqCase struct {
+	Msgs []sshdMsg `json:"msgs"`
+}
+
+func execC10HandoffSeq(c c10SeqCase) Outcome {
+	rec := &Rec{}
+	attempts := make(chan struct{}, 64)
+	rec.Hook = func() {
+		select {
+		case attempts <- struct{}{}:
+		default:
+		}
+	}
+	logins := make(chan common.RemoteUserLogin)
+	mp := metrics.NewPrometheusMetricsProviderForRegisterer(prometheus.NewRegistry())
+	ctx, cancel := context.WithCancel(context.Background())
+	defer cancel()
+	proc := sshd.NewSshdProcessor(ctx, logins, vhNode, vhMachineID, newWriter(rec), mp)
+	for i, m := range c.Msgs {
+		before := rec.Len()
+		done := make(chan error, 1)
+		go func() { done <- proc.ProcessSshdLogEntry(ctx, sshd.SshdLogEntry{PID: m.PID, Message: m.Msg}) }()
+		select {
+		case <-attempts:
+		case <-time.After(300 * time.Millisecond):
+		case <-done:
+			return Outcome{Skip: "no_hand_off_attempted"}
+		}
+		select {
+		case l := <-logins:
+			if rec.Len() == before {
+				return fail("login %d of the history (pid %d, line %q) reached the correlator although its UserLogin event was not written (%d earlier logins went through this processor)", i, l.PID, m.Msg, i)
+			}
+		case <-done:
+			return Outcome{Skip: "no_hand_off_attempted"}
+		case <-time.After(10 * time.Second):
+			return Outcome{Skip: "no_hand_off_within_10s"}
+		}
+		select {
+		case <-done:
+		case <-time.After(10 * time.Second):
+			return Outcome{Skip: "processing_did_not_return_(C13's_concern)"}
+		}
+	}
+	return Outcome{NT: true, Labels: []string{fmt.Sprintf("logins:%d", len(c.Msgs))}}
+}
+
+func TestC10_HandoffHistory(t *testing.T) {
+	RunProp(t, "c10.handoff_history", func(rt *rapid.T) c10SeqCase {
+		n := rapid.IntRange(2, 6).Draw(rt, "n")
+		c := c10SeqCase{}
+		for i := 0; i < n; i++ {
+			m := genSshdMsgForm(rt, pick(rt, "form", acceptedForms))
+			m.PID = pick(rt, "pid", []string{"4242", "4243", "5151"})
+			c.Msgs = append(c.Msgs, m)
+		}
+		return c
+	}, execC10HandoffSeq)
 }
